@@ -26,7 +26,8 @@ class C07(BaseCheck):
              'scales.sink:ClientTimeoutSink._TimeoutHelper')
   REQUIRED_ANCHORS = ANCHORS
   REQUIRED_CLASSES = ('queued', 'timed-out-while-queued', 'stale-at-head', 'max-waiters', 'dead-on-release',
-                      'idle-retention', 'probe', 'handover', 'closed-while-lent', 'fault-before-release')
+                      'idle-retention', 'probe', 'handover', 'closed-while-lent', 'fault-before-release',
+                      'recovering-after-timeout')
   ASSUMPTIONS = ('arrival order of queued requests = order in which their dispatch greenlets were spawned '
                  '(they do not yield before reaching the queue)',
                  'a max-waiters rejection is accepted whenever live + not-yet-skipped timed-out waiters >= '
@@ -53,6 +54,9 @@ class C07(BaseCheck):
     mn, mx, ql = rng.choice([(0, 1, 1), (1, 1, INF), (1, 2, 2), (2, 4, 3), (1, 3, 0), (0, 2, INF), (1, 1, 2),
                              (3, 3, 1), (1, 6, 4), (0, 1, INF)])
     open_mode = rng.choice(['sync', 'sync', 'delayed'])
+    # like the serial transport, a connection on which a request timed out re-establishes itself and
+    # reports Busy until that is done: for that long it cannot carry another request
+    recover_delay = rng.choice([0.0, 0.0, 0.05, 0.3])
     sinks = []
     reqs = []
     step = [0]
@@ -63,6 +67,14 @@ class C07(BaseCheck):
       f.update(facts or {})
       if len(out.violations) < 6:
         out.violate(kind_, msg, f, witness)
+
+    def close_pool(where):
+      try:
+        top.Close()
+      except Exception as e:  # noqa: an exception escaping Close() is an observation, not a harness crash
+        import traceback
+        viol('close-raised', 'Close() of the pool (%s) raised %s: %s' % (where, type(e).__name__, e),
+             {'exc': type(e).__name__}, {'traceback': traceback.format_exc()[-700:]})
 
     class Serial(ClientMessageSink):
       def __init__(self):
@@ -75,6 +87,7 @@ class C07(BaseCheck):
         self.created_step = step[0]
         self.served = 0
         self.released_idle = False
+        self.recovering = False
         sinks.append(self)
         req = by_greenlet.get(gevent.getcurrent())
         if req is not None:
@@ -121,6 +134,12 @@ class C07(BaseCheck):
         if self.current is not None:
           viol('exclusivity', 'connection %d lent to request %d while request %d is still in flight on it' % (
             self.id, req['id'], self.current['id']), {})
+        if self.recovering:
+          classes.add('lent-while-recovering')
+          viol('exclusivity:recovering', 'connection %d lent to request %d (%s) while it is still busy re-establishing '
+               'itself after the timeout of its previous request (it reports Busy)' % (
+                 self.id, req['id'], 'a queued request' if req.get('queued_at') is not None else 'a new request'),
+               {'queued': req.get('queued_at') is not None})
         if self.closed:
           viol('closed-connection-used', 'request %d started on connection %d after the pool closed it' % (
             req['id'], self.id), {})
@@ -173,6 +192,18 @@ class C07(BaseCheck):
         if st is not None and st[0].current is context:
           st[0].current = None
           st[0].released_idle = True
+          if isinstance(msg.error, ScalesTimeout) and recover_delay and not st[0].closed and not st[0].dead:
+            sk_ = st[0]
+            sk_.recovering = True
+            sk_._state = BUSY
+            classes.add('recovering-after-timeout')
+
+            def recovered():
+              sk_.recovering = False
+              if not sk_.closed and not sk_.dead:
+                sk_._state = OPEN
+            g_ = gevent.Greenlet(recovered)
+            g_.start_later(recover_delay)
         env.emit('stack.deliver', rid=context['id'], err=type(msg.error).__name__ if msg.error else None)
     term = Terminator()
 
@@ -379,7 +410,7 @@ class C07(BaseCheck):
           issue(None)
         env.advance(0.5)
         n_lent = len([s for s in live() if s.current is not None])
-        top.Close()
+        close_pool('while connections are lent out')
         env.settle()
         for s in live():
           if s.current is not None:
@@ -407,7 +438,7 @@ class C07(BaseCheck):
     for r in reqs:
       if len(r['deliveries']) > 1:
         viol('double-completion', 'request %d completed %d times' % (r['id'], len(r['deliveries'])), {})
-    top.Close()
+    close_pool('at the end of the history, possibly for the second time')
     env.settle()
     stats['created'] = len(sinks)
     out.classes = sorted(classes)
